@@ -26,7 +26,8 @@ def judge(run, out, meta):
             return run.validate_file(job["spec"], os.path.join(out, job["trace"]), cfg="Trace_Profile_drift.cfg")
         except vf.MachineryError as ex:
             return ex
-    with ThreadPoolExecutor(max_workers=max(1, min(4, len(jobs)))) as pool:
+    # (the thorough tier's files are large: two at a time, beside the design-level run)
+    with ThreadPoolExecutor(max_workers=max(1, min(run.pick(4, 2), len(jobs)))) as pool:
         first = list(pool.map(strict, jobs))
     strict_only, redo = [], []
     run.trace_states = st       # the states of a rejected strict pass do not count: the law pass judges that file again
